@@ -169,9 +169,29 @@ func C18_tree() {
 // next to each other and next to scalars) with one S leaf, every indent mode,
 // sorted and unsorted.
 func C18_adjacent() {
-	leaf := interface{}(sym.Bool("leaf"))
-	if sym.Choice("leaf kind", 2) == 1 {
+	// the leaf next to the containers: every kind of scalar token (the tight
+	// SDL mode drops the comma between a scalar and a following container, so
+	// the scanner must end each kind of token at '{' and '[')
+	var leaf interface{}
+	lk := sym.Choice("leaf kind", 8)
+	switch lk {
+	case 0:
+		leaf = sym.Bool("leaf")
+	case 1:
 		leaf = ggql.Symbol(nameToken("sym"))
+	case 2:
+		leaf = []int64{0, -7, 2147483648}[sym.Choice("int", 3)]
+	case 3:
+		leaf = []float64{1.5, -2.5e-3}[sym.Choice("float", 2)]
+	case 4:
+		leaf = sym.String("str", 1)
+		sym.Assume(utf8.ValidString(leaf.(string)))
+	case 5:
+		leaf = ggql.Var(nameToken("var"))
+	case 6:
+		leaf = nil
+	default:
+		leaf = ""
 	}
 	e := func() interface{} { return []interface{}{} }
 	m := func() interface{} { return map[string]interface{}{} }
@@ -186,6 +206,9 @@ func C18_adjacent() {
 		map[string]interface{}{"k": []interface{}{leaf, nil}, "a": leaf},
 		map[string]interface{}{"k": map[string]interface{}{"a": m()}, "a": "s"},
 		[]interface{}{nil, nil, []interface{}{nil}},
+		[]interface{}{leaf, map[string]interface{}{"k": leaf}},
+		[]interface{}{leaf, []interface{}{leaf}, leaf},
+		map[string]interface{}{"a": leaf, "k": map[string]interface{}{"b": leaf}},
 	}
 	v := shapes[sym.Choice("shape", len(shapes))]
 	indent := indentChoice()
@@ -200,7 +223,9 @@ func C18_adjacent() {
 	jt := jsonText(v, indent)
 	jv, ok := parseJSON(jt)
 	sym.Assert(ok, "JSON text is valid")
-	sym.Assert(sym.DeepEqual(jv, jsonView(v)), "JSON decodes to the same structure")
+	if lk != 3 { // (the reference JSON reader checks float syntax, it does not convert decimal text)
+		sym.Assert(sym.DeepEqual(jv, jsonView(v)), "JSON decodes to the same structure")
+	}
 	ggql.Sort = false
 }
 
